@@ -71,10 +71,15 @@ impl SocketSend for ReqSocket {
 #[async_trait]
 impl SocketRecv for ReqSocket {
     async fn recv(&mut self) -> ZmqResult<ZmqMessage> {
-        match self.current_request.take() {
+        // The request stays outstanding until a reply (or a failure) has actually been
+        // received: this future may be dropped while it waits (select!, timeouts), and the
+        // reply that then arrives belongs to this request, not to a later one.
+        match self.current_request.clone() {
             Some(peer_id) => {
                 if let Some(mut peer) = self.backend.peers.get_async(&peer_id).await {
-                    match peer.recv_queue.next().await {
+                    let reply = peer.recv_queue.next().await;
+                    self.current_request = None;
+                    match reply {
                         Some(Ok(Message::Message(mut m))) => {
                             if m.len() < 2 {
                                 return Err(ZmqError::Other(
@@ -96,6 +101,7 @@ impl SocketRecv for ReqSocket {
                         None => Err(ZmqError::NoMessage),
                     }
                 } else {
+                    self.current_request = None;
                     Err(ZmqError::Other("Server disconnected"))
                 }
             }
